@@ -820,7 +820,37 @@ func genStageTokens(repo string) (string, error) {
 	} else {
 		ok = false
 	}
-	fmt.Fprintf(&b, "Definition stop_always_drains : bool := %v.\nDefinition stop_graceful_stage_before_close : bool := %v.\nDefinition upgrade_handler_drains_before_done : bool := %v.\n", always, before, handlerDrains)
+	// NoticeStop: before `stm.stopAction = action` an if statement mentioning Reload returns (a reload does not replace a noticed stop)
+	hupSafe := false
+	if fd := FindFunc(sf, "", "NoticeStop"); fd != nil {
+		for _, st := range fd.Body.List {
+			if as, isa := st.(*ast.AssignStmt); isa && len(as.Lhs) == 1 && exprString(as.Lhs[0]) == "stm.stopAction" {
+				break
+			}
+			if is, isi := st.(*ast.IfStmt); isi {
+				mentions, returns := false, false
+				ast.Inspect(is.Cond, func(n ast.Node) bool {
+					if id, isid := n.(*ast.Ident); isid && id.Name == "Reload" {
+						mentions = true
+					}
+					return true
+				})
+				ast.Inspect(is.Body, func(n ast.Node) bool {
+					if _, isr := n.(*ast.ReturnStmt); isr {
+						returns = true
+					}
+					return true
+				})
+				if mentions && returns {
+					hupSafe = true
+				}
+			}
+		}
+	} else {
+		ok = false
+	}
+	b.WriteString("From MV Require Import Model.Stage.\n")
+	fmt.Fprintf(&b, "Definition stage_flags : sflags := mkSF %v %v.\nDefinition stop_graceful_stage_before_close : bool := %v.\nDefinition upgrade_handler_drains_before_done : bool := %v.\n", always, hupSafe, before, handlerDrains)
 	fmt.Fprintf(&b, "Definition StageTokens_translator_ok := %v.\n", ok)
 	return b.String(), nil
 }
